@@ -187,6 +187,45 @@ def genOp (args : List String) : String :=
     s!"url={hexOut (clientURLSuffix s md)} mux={hexOut (muxPattern s md)} proc={hexOut (handlerProcedure s md)} prefix={hexOut (mountPrefix s)} field={hexOut (unexport go)} kind={kind}"
   | _, _, _, _, _, _ => "bad-op"
 
+def parseGoError (s : String) : Option GoError :=
+  match s.splitOn ":" with
+  | ["canceled"] => some (.ctx .canceled)
+  | ["deadline"] => some (.ctx .deadline)
+  | ["url-canceled"] => some (.wrap (.ctx .canceled))
+  | ["url-deadline"] => some (.wrap (.ctx .deadline))
+  | ["wrapped-canceled"] => some (.wrap (.wrap (.ctx .canceled)))
+  | ["opaque"] => some .opaque
+  | ["eof"] => some .eof
+  | ["ueof"] => some .unexpectedEOF
+  | ["rst", n] => some (.rst (str n))
+  | ["url-rst", n] => some (.wrap (.rst (str n)))
+  | _ => none
+
+def cflowOp (args : List String) : String :=
+  match kv args "point", (kv args "err").bind parseGoError with
+  | some point, some e =>
+    let first : Option GoError :=
+      match point.splitOn ":" with
+      | ["do"] =>
+        match setError none (doError e) with
+        | some stored => some (clientReceiveError (envelopePrefixError 0 stored))
+        | none => none
+      | ["prefix", n] => n.toNat?.map fun k => clientReceiveError (envelopePrefixError k (duplexReadError e))
+      | ["payload", _] =>
+        let r := duplexReadError e
+        some (clientReceiveError (if r.isEOF then .coded codeInvalidArgument .opaque else envelopePayloadError r))
+      | _ => none
+    match first with
+    | some f =>
+      let f' := wrapIfUncoded f
+      match setError none f' with
+      | some stored =>
+        let second := wrapIfUncoded (clientReceiveError (envelopePrefixError 0 stored))
+        s!"first={f'.codeOf} second={second.codeOf}"
+      | none => "bad-op"
+    | none => "bad-op"
+  | _, _ => "bad-op"
+
 def step (line : String) : String :=
   match (line.trimAscii.toString.splitOn " ") with
   | ["code.str", n] => match n.toNat? with
@@ -258,6 +297,7 @@ def step (line : String) : String :=
     | none => "bad-op"
   | "neg" :: args => negOp args
   | "cmin" :: args => cminOp args
+  | "cflow" :: args => cflowOp args
   | "gen" :: args => genOp args
   | "icpt" :: args => icptOp args
   | "recover" :: args => recoverOp args
